@@ -11,6 +11,8 @@ mod level_history;
 mod queue_history;
 mod amend_race;
 mod search;
+mod package_faults;
+mod uuid_contract;
 
 use pricelevel::{OrderId, OrderType, PegReferenceType, Side, TimeInForce};
 use serde::Deserialize;
@@ -104,6 +106,8 @@ fn run(v: serde_json::Value) -> Result<Report, String> {
         "queue_history" => queue_history::run(&v, &mut rep)?,
         "amend_race" => amend_race::run(&v, &mut rep)?,
         "search" => search::run(&v, &mut rep)?,
+        "package_faults" => package_faults::run(&v, &mut rep)?,
+        "uuid_contract" => uuid_contract::run(&v, &mut rep)?,
         k => return Err(format!("unknown kind {k}")),
     }
     Ok(rep)
